@@ -169,6 +169,8 @@ def run_case(case: Dict[str, Any]) -> Dict[str, Any]:
     fwd, bwd = _formats(fname)
 
     def run(model: Any, call: Any) -> Any:
+        for p_ in model.parameters():
+            p_.grad = None
         args = [a.clone().requires_grad_(True) if a.is_floating_point() and i == 0 else a.clone() for i, a in enumerate(inp)]
         with mock.patch.object(torch, "randint", pinned_randint):
             y = call(*args)
